@@ -254,3 +254,20 @@ func init() {
 		ruleDeterminism(c, r)
 	})
 }
+
+func init() {
+	register("C15", func(c *Ctx, r *Report) {
+		r.Decides("the ordered-map and parent-helper code that gogen's templates expand to, for every key shape in the analyser's table (1–3 keys, pointer and non-pointer key leaves), obeys the insertion/deletion/read-only discipline of an insertion-ordered unique-key map (the inductive step of the model: each method's effect on keys/valueMap), and every library traversal of an ordered map goes through yreflect's ordered accessors.",
+			"equivalence with the reference model over all call histories; order preservation through JSON/gNMI/DeepCopy at value level; key shapes outside the table (the templates only distinguish single/multi and pointer/non-pointer).")
+		r.Assume("text/template of the standard library expands the templates as the generator's own engine does; the analyser's data shapes carry the fields the templates read (an unknown field is reported as undecided)")
+		ruleOrderedMapTemplates(c, r)
+		ruleOrderedMapTraversal(c, r)
+		ruleDiffGuards(c, r)
+	})
+	register("C34", func(c *Ctx, r *Report) {
+		r.Decides("the keyed-list helper code that gogen's templates expand to, for every key shape in the analyser's table, obeys the keyed-map discipline method by method (New/Append reject duplicates and nil keys before writing, Get never writes, GetOrCreate creates only on a miss, Delete removes only the key, Rename validates first, updates every key leaf from newK and moves the entry).",
+			"equivalence with the reference model over all helper-call histories; key types beyond pointer/non-pointer (the templates do not distinguish them).")
+		r.Assume("text/template of the standard library expands the templates as the generator's own engine does; the analyser's data shapes carry the fields the templates read (an unknown field is reported as undecided)")
+		ruleKeyedListTemplates(c, r)
+	})
+}
